@@ -11,8 +11,9 @@ whatever the fuel, the tracing mode and the (well-typed) arguments; when it yiel
 has the expression's type.  `stuck` is the model's image of the structural machine errors of C06.
 
 User data types (constructors, field access, constructor patterns) and tuple indexing are typed
-against the program's `adts` table.  Not covered (hence `…_partial` in `Props/C06.lean`): closures /
-higher-order application and `Data` casts.
+against the program's `adts` table; `Data` up-casts are total on typed values (`toData_total`) and a
+successful down-cast yields a value of the requested type (`fromData_ty`).  Not covered (hence
+`…_partial` in `Props/C06.lean`): closures / higher-order application.
 -/
 namespace AikenVerif.Mini
 
@@ -43,6 +44,8 @@ mutual
         | some tys => zipTy A vs tys
         | none => false
       | none => false
+    | .con tag vs, .opt t => (tag == 0 && zipTy A vs [t]) || (tag == 1 && vs.isEmpty)
+    | .data _, .data => true
     | _, _ => false
   def allTy (A : Adts) : List Val → MTy → Bool
     | [], _ => true
@@ -105,6 +108,10 @@ inductive UnTy (A : Adts) : UnOp → MTy → MTy → Prop
   /-- field access: on single-constructor types only (what the real checker allows) -/
   | field (i k tys t) : A[i]? = some [tys] → tys[k]? = some t → UnTy A (.field k) (.adt i) t
   | tupIdx (ts k t) : ts[k]? = some t → UnTy A (.tupIdx k) (.tup ts) t
+  /-- up-cast to `Data`: every first-order value has an encoding -/
+  | toData (t) : UnTy A .toData t .data
+  /-- down-cast `expect _: t = d`: fails (`abort`) or yields a value of type `t` -/
+  | fromData (t) : UnTy A (.fromData t) .data t
 
 inductive BinTy : BinOp → MTy → MTy → MTy → Prop
   | add : BinTy .add .int .int .int
@@ -241,6 +248,154 @@ theorem zipTy_get : ∀ (vs : List Val) (ts : List MTy) (k : Nat) (t : MTy), zip
     simp only [zipTy, Bool.and_eq_true] at h
     simp only [List.getElem?_cons_succ] at hk ⊢
     exact zipTy_get vs ts k t h.2 hk
+
+-- ------------------------------------------------------------------ Data casts
+mutual
+  /-- every typed (hence closure-free) value has a `Data` encoding -/
+  theorem toData_total : ∀ (v : Val) (t : MTy), valTy A v t = true → ∃ d, toData v = some d
+    | .int n, _, _ => ⟨_, rfl⟩
+    | .bool b, _, _ => ⟨_, rfl⟩
+    | .bytes b, _, _ => ⟨_, rfl⟩
+    | .unit, _, _ => ⟨_, rfl⟩
+    | .str s, _, _ => ⟨_, rfl⟩
+    | .data d, _, _ => ⟨_, rfl⟩
+    | .clo _ _, t, h => by cases t <;> simp [valTy] at h
+    | .fn _, t, h => by cases t <;> simp [valTy] at h
+    | .list vs, t, h => by
+      cases t <;> simp only [valTy, Bool.false_eq_true] at h
+      rename_i te
+      obtain ⟨ds, hds⟩ := toDataList_total_all vs te h
+      exact ⟨.list ds, by simp [toData, hds]⟩
+    | .tuple vs, t, h => by
+      cases t <;> simp only [valTy, Bool.false_eq_true] at h
+      rename_i ts
+      obtain ⟨ds, hds⟩ := toDataList_total_zip vs ts h
+      exact ⟨.list ds, by simp [toData, hds]⟩
+    | .con tag vs, t, h => by
+      cases t <;> simp only [valTy, Bool.false_eq_true] at h
+      · rename_i te
+        simp only [Bool.or_eq_true, Bool.and_eq_true] at h
+        rcases h with ⟨_, h⟩ | ⟨_, h⟩
+        · obtain ⟨ds, hds⟩ := toDataList_total_zip vs [te] h
+          exact ⟨.constr tag ds, by simp [toData, hds]⟩
+        · cases vs with
+          | nil => exact ⟨.constr tag [], by simp [toData, toDataList]⟩
+          | cons _ _ => simp at h
+      · rename_i i
+        cases h1 : A[i]? with
+        | none => simp [h1] at h
+        | some ctors =>
+          cases h2 : ctors[tag]? with
+          | none => simp [h1, h2] at h
+          | some tys =>
+            simp only [h1, h2] at h
+            obtain ⟨ds, hds⟩ := toDataList_total_zip vs tys h
+            exact ⟨.constr tag ds, by simp [toData, hds]⟩
+  theorem toDataList_total_all : ∀ (vs : List Val) (t : MTy), allTy A vs t = true →
+      ∃ ds, toDataList vs = some ds
+    | [], _, _ => ⟨[], rfl⟩
+    | v :: vs, t, h => by
+      simp only [allTy, Bool.and_eq_true] at h
+      obtain ⟨d, hd⟩ := toData_total v t h.1
+      obtain ⟨ds, hds⟩ := toDataList_total_all vs t h.2
+      exact ⟨d :: ds, by simp [toDataList, hd, hds]⟩
+  theorem toDataList_total_zip : ∀ (vs : List Val) (ts : List MTy), zipTy A vs ts = true →
+      ∃ ds, toDataList vs = some ds
+    | [], _, _ => ⟨[], rfl⟩
+    | v :: vs, [], h => by simp [zipTy] at h
+    | v :: vs, t :: ts, h => by
+      simp only [zipTy, Bool.and_eq_true] at h
+      obtain ⟨d, hd⟩ := toData_total v t h.1
+      obtain ⟨ds, hds⟩ := toDataList_total_zip vs ts h.2
+      exact ⟨d :: ds, by simp [toDataList, hd, hds]⟩
+end
+
+mutual
+  /-- a successful down-cast yields a value of the requested type -/
+  theorem fromData_ty : ∀ (d : Data) (t : MTy) (v : Val), fromData A t d = some v → valTy A v t = true
+    | .int n, t, v, h => by
+      cases t <;> simp only [fromData, Option.some.injEq, reduceCtorEq] at h <;> subst h <;> simp [valTy]
+    | .bytes b, t, v, h => by
+      cases t <;> simp only [fromData, Option.some.injEq, reduceCtorEq] at h <;> subst h <;> simp [valTy]
+    | .map es, t, v, h => by
+      cases t <;> simp only [fromData, Option.some.injEq, reduceCtorEq] at h <;> subst h <;> simp [valTy]
+    | .list ds, t, v, h => by
+      cases t <;> simp only [fromData, Option.some.injEq, reduceCtorEq, Option.map_eq_some_iff] at h
+      · subst h; simp [valTy]
+      · obtain ⟨vs, hvs, rfl⟩ := h
+        simpa [valTy] using fromDataAll_ty ds _ vs hvs
+      · obtain ⟨vs, hvs, rfl⟩ := h
+        simpa [valTy] using fromDataZip_ty ds _ vs hvs
+    | .constr tag fs, t, v, h => by
+      cases t
+      case data => simp only [fromData, Option.some.injEq] at h; subst h; simp [valTy]
+      case bool =>
+        cases fs <;> simp only [fromData, reduceCtorEq] at h
+        split at h
+        · simp only [Option.some.injEq] at h; subst h; simp [valTy]
+        · split at h <;> simp only [Option.some.injEq, reduceCtorEq] at h
+          subst h; simp [valTy]
+      case void =>
+        cases fs <;> simp only [fromData, reduceCtorEq] at h
+        split at h <;> simp only [Option.some.injEq, reduceCtorEq] at h
+        subst h; simp [valTy]
+      case opt te =>
+        simp only [fromData] at h
+        split at h
+        · simp only [Option.map_eq_some_iff] at h
+          obtain ⟨vs, hvs, rfl⟩ := h
+          have := fromDataZip_ty fs [te] vs hvs
+          simp [valTy, this]
+        · split at h
+          · cases fs <;> simp only [Option.some.injEq, reduceCtorEq] at h
+            subst h; simp [valTy]
+          · simp at h
+      case adt i =>
+        simp only [fromData] at h
+        cases h1 : A[i]? with
+        | none => simp [h1] at h
+        | some ctors =>
+          cases h2 : ctors[tag]? with
+          | none => simp [h1, h2] at h
+          | some tys =>
+            simp only [h1, h2, Option.map_eq_some_iff] at h
+            obtain ⟨vs, hvs, rfl⟩ := h
+            simpa [valTy, h1, h2] using fromDataZip_ty fs tys vs hvs
+      all_goals simp [fromData] at h
+  theorem fromDataAll_ty : ∀ (ds : List Data) (t : MTy) (vs : List Val), fromDataAll A t ds = some vs →
+      allTy A vs t = true
+    | [], _, vs, h => by simp only [fromDataAll, Option.some.injEq] at h; subst h; simp [allTy]
+    | d :: ds, t, vs, h => by
+      simp only [fromDataAll] at h
+      cases h1 : fromData A t d with
+      | none => simp [h1] at h
+      | some w =>
+        cases h2 : fromDataAll A t ds with
+        | none => simp [h1, h2] at h
+        | some ws =>
+          simp only [h1, h2, Option.some.injEq] at h
+          subst h
+          simp [allTy, fromData_ty d t w h1, fromDataAll_ty ds t ws h2]
+  theorem fromDataZip_ty : ∀ (ds : List Data) (ts : List MTy) (vs : List Val), fromDataZip A ts ds = some vs →
+      zipTy A vs ts = true
+    | [], ts, vs, h => by
+      cases ts <;> simp only [fromDataZip, Option.some.injEq, reduceCtorEq] at h
+      subst h; simp [zipTy]
+    | d :: ds, ts, vs, h => by
+      cases ts with
+      | nil => simp [fromDataZip] at h
+      | cons t ts =>
+        simp only [fromDataZip] at h
+        cases h1 : fromData A t d with
+        | none => simp [h1] at h
+        | some w =>
+          cases h2 : fromDataZip A ts ds with
+          | none => simp [h1, h2] at h
+          | some ws =>
+            simp only [h1, h2, Option.some.injEq] at h
+            subst h
+            simp [zipTy, fromData_ty d t w h1, fromDataZip_ty ds ts ws h2]
+end
 
 -- ------------------------------------------------------------------ environments
 theorem envOk_lookup : ∀ (Γ : Ctx) (env : Env) (x : Nat) (t : MTy), envOk A Γ env → lookupTy Γ x = some t →
@@ -412,8 +567,8 @@ theorem firstMatch_mem : ∀ (v : Val) (cs : List (Pat × Expr)) (bs : Env) (b :
       exact ⟨c, by simp [hc], h1, h2⟩
 
 -- ------------------------------------------------------------------ operators
-theorem unOp_ok (P : Program) (op : UnOp) (v : Val) (ta t : MTy) (ht : UnTy A op ta t)
-    (hv : valTy A v ta = true) : Ok A (unOp P op v) t := by
+theorem unOp_ok (P : Program) (op : UnOp) (v : Val) (ta t : MTy) (ht : UnTy P.adts op ta t)
+    (hv : valTy P.adts v ta = true) : Ok P.adts (unOp P op v) t := by
   cases ht with
   | neg => obtain ⟨n, rfl⟩ := valTy_int hv; simp [unOp, Ok, Good, valTy]
   | not => obtain ⟨n, rfl⟩ := valTy_bool hv; simp [unOp, Ok, Good, valTy]
@@ -435,6 +590,16 @@ theorem unOp_ok (P : Program) (op : UnOp) (v : Val) (ta t : MTy) (ht : UnTy A op
     obtain ⟨w, hw, hwt⟩ := zipTy_get vs ts k t hz hk
     simp only [unOp, hw]
     exact hwt
+  | toData t0 =>
+    obtain ⟨d, hd⟩ := toData_total v _ hv
+    simp [unOp, hd, Ok, Good, valTy]
+  | fromData t0 =>
+    cases v <;> simp only [valTy, Bool.false_eq_true] at hv
+    rename_i d
+    simp only [unOp]
+    cases hf : fromData P.adts t d with
+    | none => simp [Ok, Good]
+    | some w => exact fromData_ty d t w hf
 
 theorem binOp_ok (op : BinOp) (x y : Val) (ta tb t : MTy) (ht : BinTy op ta tb t)
     (hx : valTy A x ta = true) (hy : valTy A y tb = true) : Ok A (binOp op x y) t := by
